@@ -18,15 +18,16 @@ def builtins_list():
         return []
 
 
-def lex_only(src):
-    L = lua.Lua(8)
+def lex_only(src, version=8):
+    L = lua.Lua(version)
     L._lexer.process_lines([src])
     return L
 
 
 def stats_of(src):
+    """the token count `stats` reports, for an old and a current cart version (one number: the acceptors only compare it)"""
     try:
-        return lex_only(src).get_token_count()
+        return lex_only(src, 8).get_token_count() * 100003 + lex_only(src, 33).get_token_count()
     except Exception:
         return -1
 
